@@ -437,6 +437,12 @@ def build(unit, outdir, canary=False, pid=None, coarse=(), stub=None, autostub=F
     errors = []
     stub = dict(stub or {})
     merge.UNIT_TABLE = merge.merge_tables([merge.ghost_arg_table(lex.tokenize(r.body)) for r in regions if r.kind == "fn"])
+    merge.UNIT_DEFAULTS = {}
+    for c in chunks:
+        if isinstance(c, str):
+            for m in re.finditer(r"^\s*//@ghost_default\s+(\w+)\s+(\d+)\s*:\s*(.*)$", c, re.M):
+                toks = lex.tokenize(m.group(3))
+                merge.UNIT_DEFAULTS[(m.group(1), int(m.group(2)))] = merge._split_args(["("] + toks + [")"], 0, len(toks) + 1)
     for r in regions:
         try:
             if r.kind == "fn" and r.name in stub:
@@ -524,7 +530,7 @@ def trusted_scan(text):
 
 
 def run_verus(built, seed=0, rlimit=None, timeout=900):
-    cmd = ["verus", built.path, "--output-json", "--time-expanded", "--error-format=json", "--multiple-errors", "8"]
+    cmd = ["verus", built.path, "--output-json", "--time-expanded", "--error-format=json", "--multiple-errors", "40"]
     if seed:
         cmd += ["--smt-option", "smt.random_seed=%d" % seed]
     if rlimit:
